@@ -54,6 +54,35 @@ pub struct Case {
     pub exclusions: Vec<(u8, u16)>,
     #[serde(default)]
     pub keep_known: bool,
+    /// metamorphic spelling: function-pointer members `R (*m)(P..)` are written as `ft_N *m` with
+    /// `typedef R ft_N(P..);` (pointer to a typedef'd function type); nothing may change
+    #[serde(default)]
+    pub fn_typedefs: bool,
+}
+
+/// See `Case::fn_typedefs`. Members whose parameter list names a tag type are left alone (the
+/// typedef would have to follow the tag's declaration).
+fn spell_fn_pointers_through_typedefs(header: &str) -> (String, usize) {
+    let re = regex::Regex::new(r"^(\s+)((?:const )?[A-Za-z_][A-Za-z0-9_ ]*?)\s*\(\*([A-Za-z_][A-Za-z0-9_]*)\)\(([^()]*)\);$").unwrap();
+    let mut out: Vec<String> = vec![];
+    let mut decl_start = 0usize;
+    let mut n = 0usize;
+    for line in header.lines() {
+        if !line.starts_with(' ') && !line.starts_with('}') && !line.is_empty() {
+            decl_start = out.len();
+        }
+        match re.captures(line) {
+            Some(c) if !["struct ", "union ", "enum "].iter().any(|k| c[4].contains(k) || c[2].contains(k)) => {
+                n += 1;
+                let name = format!("c08_ft_{n}");
+                out.insert(decl_start, format!("typedef {} {name}({});", &c[2], &c[4]));
+                decl_start += 1;
+                out.push(format!("{}{name} *{};", &c[1], &c[3]));
+            }
+            _ => out.push(line.to_string()),
+        }
+    }
+    (out.join("\n") + "\n", n)
 }
 
 pub const OPTION_BITS: &[&str] = &[
@@ -339,8 +368,8 @@ impl Property for C08 {
     }
     fn strategy(&self, _tier: Tier) -> BoxedStrategy<Case> {
         let cfg = GenCfg { keyword_names: false, ..GenCfg::data_types() };
-        (program_strategy(cfg), any::<u16>(), proptest::collection::vec((0u8..5, any::<u16>()), 0..3))
-            .prop_map(|(prog, bits, exclusions)| Case { prog, option_bits: bits & ((1 << OPTION_BITS.len()) - 1), exclusions, keep_known: false })
+        (program_strategy(cfg), any::<u16>(), proptest::collection::vec((0u8..5, any::<u16>()), 0..3), proptest::bool::weighted(0.3))
+            .prop_map(|(prog, bits, exclusions, fn_typedefs)| Case { prog, option_bits: bits & ((1 << OPTION_BITS.len()) - 1), exclusions, keep_known: false, fn_typedefs })
             .boxed()
     }
     fn generated(&self, tier: Tier) -> usize {
@@ -402,7 +431,14 @@ impl Property for C08 {
             }
             out.excluded_known += k;
         }
-        let header = prog.render();
+        let mut header = prog.render();
+        if case.fn_typedefs {
+            let (h, n) = spell_fn_pointers_through_typedefs(&header);
+            header = h;
+            if n > 0 {
+                out.class("function-pointer-members-through-function-typedefs");
+            }
+        }
         std::fs::write(env.dir.join("in.h"), &header).ok();
         // ---- options
         // Eq needs PartialEq, Ord needs PartialOrd + Eq (user-side precondition of the derives)
